@@ -338,6 +338,10 @@ def lossless_tokens(text, toks, start):
     if pos != len(b): return f'tokens cover {pos - start} of {len(b) - start} bytes'
     return None
 
+def validate(tier, seed, report):
+    from props import exprlib
+    return exprlib.validate_pipeline(seed, 60 if tier == 'quick' else 300)
+
 def known_match(k, c): return True
 
 if __name__ == '__main__':
